@@ -7,6 +7,7 @@ package mon
 import (
 	"errors"
 	"fmt"
+	"reflect"
 	"runtime"
 	"sort"
 	"strconv"
@@ -347,6 +348,10 @@ func (sp Spec) common(kind byte, gs, st map[string]any, id int, text []byte, lin
 	idx = tr.Idx()
 	labels = CanonLabels(ls)
 	tr.add(FormatEvent(kind, id, line, col, off, text, labels, CanonState(st), glogOf(gs)))
+	if tr != nil && tr.Stress > 0 && st != nil && len(tr.StateID) < 64 {
+		// identity of the state map this block sees (shows recycling through the pool across goroutines)
+		tr.StateID = append(tr.StateID, reflect.ValueOf(st).Pointer())
+	}
 	if sp.G && gs != nil {
 		gs["glog"] = glogOf(gs) + string(kind) + strconv.Itoa(id) + ","
 	}
